@@ -54,10 +54,11 @@ ASSUMPTIONS = [
     "CPython 3.12, PYTHONHASHSEED=0",
 ]
 
-NAMES = ["X", "Y", "X_BAK1"]
+NAMES = ["X", "Y", "X_BAK1", "Model2"]      # Model2: an explicit name that collides with the auto-namer
 SAVED_NAME = "X"
 
-RENAMES = [["X", False], ["X", True], ["Y", False], ["Y", True], ["X_BAK1", False], ["X_BAK1", True]]
+RENAMES = [["X", False], ["X", True], ["Y", False], ["Y", True], ["X_BAK1", False], ["X_BAK1", True],
+           ["Model2", False]]
 
 # a tier is a list of phases; every phase is an exhaustive BFS of its own alphabet to its own depth
 BOUNDS = {
@@ -185,6 +186,8 @@ def applicable(w, op, bounds):
     k = op["op"]
     if k in ("new", "read"):
         return w.created < bounds["max_models"]
+    if k == "reclose":      # close() on a handle that is already closed (its name may have been re-used)
+        return op["i"] < len(w.ref) and not w.ref[op["i"]]["open"]
     i = w.idx_of(op["m"])
     if i is None:
         return False
@@ -230,6 +233,9 @@ def alphabet(w, bounds):
             if b != m:
                 ops.append({"op": "xref", "m": m, "to": b})
         ops.append({"op": "query", "m": m})
+    closed = [i for i, r in enumerate(w.ref) if not r["open"]]
+    for i in closed[:1]:
+        ops.append({"op": "reclose", "i": i})
     return [op for op in ops if applicable(w, op, bounds)]
 
 
@@ -248,6 +254,8 @@ def apply_impl(w, op):
         kw = {"name": op["name"]} if op["name"] else {}
         obs = observe(lambda: box.append(mx.read_model(w.scratch.path(op["src"]), **kw)) or box[0].name)
         return obs, (box[0] if box else None)
+    if k == "reclose":
+        return observe(w.handles[op["i"]].close), None
     i = w.idx_of(op["m"])
     m = w.handles[i]
     if k == "rename":
@@ -311,7 +319,7 @@ def step(w, op, check):
         pre_reg = registry_view()
     target = None
     comp = set()
-    if k not in ("new", "read"):
+    if k not in ("new", "read", "reclose"):
         target = w.idx_of(op["m"])
         comp = w.component(target)
 
